@@ -352,7 +352,7 @@ def prep2(Hh, st, a, A, b, B, out, exact):
                 l2 = LegCharge.from_qflat(ci2, np.array(l.to_qflat()[:, k:k + 1]), l.qconj)
                 add_legs.append(l2.bunch()[1] if st['bunch'] else l2)
             d0 = dense(a)
-            nonzero = d0 is not None and bool(np.any(d0 != 0))
+            nonzero = d0 is not None and bool(np.any(np.abs(d0) > 1.e-8))
             chinfo = ChargeInfo.add([a.chinfo, ci2]) if st['give_chinfo'] else None
             con = []
             if st['detect']:
